@@ -26,6 +26,3 @@ func (gc *flannelGC) VerifCleanupIPOnce() error { return gc.cleanupIP() }
 
 // VerifCleanupGCDirsOnce runs one pass of cleanupGCDirs.
 func (gc *flannelGC) VerifCleanupGCDirsOnce() error { return gc.cleanupGCDirs() }
-
-// VerifShouldCleanup exposes shouldCleanup.
-func (gc *flannelGC) VerifShouldCleanup(cid string) bool { return gc.shouldCleanup(cid) }
